@@ -10,8 +10,13 @@ func init() {
 	registerProp(&PropSpec{ID: "C01", Title: "Exactly the matching, in-scope, unsuppressed rules fire once per event", MinObls: 30,
 		Classes:     regexp.MustCompile(`^(safe:(hash|index|slice|shift)|post|pre|assert|inv|dec|lock|frame)`),
 		TrustedBase: []string{"64-bit vector semantics for the rule bit masks (shifts, masks, overflow exact)", "regexp.MatchString as a function of (pattern, text)"},
-		Assumptions: []string{"strings.Split / sort.Sort contracts", "one task runs ProcessEvent sequentially (C02/C09)"},
-		NotDecided:  []string{"that the recursive kind tree built by addRuleAtLevel files every pattern under its own path (inductive multiset invariant over an interface-typed heap tree)"}})
+		Assumptions: []string{"strings.Split / sort.Sort contracts (sort.Sort permutes)", "one task runs ProcessEvent sequentially (C02/C09)",
+			"the trigger cache key (fmt %q of the kind) is an injective function of the kind, and reachability (trigAt) depends on an event only through its kind",
+			"trigAt / scopeAllows are read as functions of the index / scope, which the functions using them do not modify (their frames are checked); rules are only added while the processor is stopped",
+			"events handed to the processor are non-nil"},
+		NotDecided: []string{"that the recursive kind tree built by addRuleAtLevel files every pattern under its own path, and that matchAtLevel finds every rule filed under a reachable node (completeness of the kind walk: an inductive multiset invariant over an interface-typed heap tree); proved instead: the pre-check reaches every node the full match reaches (trigAt), rules are returned once, the leaf bit logic, and the scope / suppression / execution loops step by step",
+			"RuleScope.IsAllowed (most specific defined prefix wins): trusted definition of scopeAllows",
+			"createRule (sink attributes -> Rule) in interpreter/rt_sink.go"}})
 }
 
 const c01ReplaySrc = `package engine
@@ -71,6 +76,54 @@ func TestVerifReplay(t *testing.T) {
 		idx.AddRule(&Rule{Name: "r", KindMatch: []string{"a"}, ScopeMatch: []string{}, StateMatch: map[string]interface{}{"k": 1.0}})
 		idx.Match(NewEvent("e", []string{"a"}, map[interface{}]interface{}{"k": map[interface{}]interface{}{"x": 1.0}}))
 	})
+	// processor level: trigger cache, duplicates, self suppression
+	procCase := func(name string, rules []*Rule, events []*Event, want []int) {
+		verifGuard(name, func() {
+			proc := NewProcessor(1)
+			fired := map[string]int{}
+			for _, r := range rules {
+				r := r
+				r.Action = func(p Processor, m Monitor, e *Event, tid uint64) error { fired[r.Name+"@"+e.Name()]++; return nil }
+				proc.AddRule(r)
+			}
+			proc.Start()
+			for i, e := range events {
+				before := 0
+				for _, n := range fired {
+					before += n
+				}
+				proc.AddEventAndWait(e, nil)
+				after := 0
+				for _, n := range fired {
+					after += n
+				}
+				if after-before != want[i] {
+					proc.Finish()
+					panic(fmt.Sprintf("WRONG: event %d (%v kind %v) ran %d rule actions, expected %d", i, e.Name(), e.Kind(), after-before, want[i]))
+				}
+			}
+			proc.Finish()
+		})
+	}
+	procCase("cache-same-name-other-kind", []*Rule{{Name: "r", KindMatch: []string{"a.b"}, ScopeMatch: []string{}}},
+		[]*Event{NewEvent("x", []string{"zzz"}, nil), NewEvent("x", []string{"a", "b"}, nil)}, []int{0, 1})
+	procCase("cache-same-kind-other-name", []*Rule{{Name: "r", KindMatch: []string{"a.b"}, ScopeMatch: []string{}}},
+		[]*Event{NewEvent("x", []string{"a", "b"}, nil), NewEvent("y", []string{"a", "b"}, nil)}, []int{1, 1})
+	procCase("rule-with-two-matching-patterns", []*Rule{{Name: "r", KindMatch: []string{"a.b", "a.*"}, ScopeMatch: []string{}}},
+		[]*Event{NewEvent("x", []string{"a", "b"}, nil)}, []int{1})
+	procCase("self-suppression", []*Rule{{Name: "r", KindMatch: []string{"a"}, ScopeMatch: []string{}, SuppressionList: []string{"r"}}},
+		[]*Event{NewEvent("x", []string{"a"}, nil)}, []int{1})
+	procCase("suppression-of-another-rule", []*Rule{{Name: "r", KindMatch: []string{"a"}, ScopeMatch: []string{}, SuppressionList: []string{"s"}}, {Name: "s", KindMatch: []string{"a"}, ScopeMatch: []string{}}},
+		[]*Event{NewEvent("x", []string{"a"}, nil)}, []int{1})
+	verifGuard("wildcard-next-to-exact-entry", func() {
+		idx := NewRuleIndex()
+		idx.AddRule(&Rule{Name: "r1", KindMatch: []string{"core.*.done"}, ScopeMatch: []string{}})
+		idx.AddRule(&Rule{Name: "r2", KindMatch: []string{"core.task.started"}, ScopeMatch: []string{}})
+		e := NewEvent("e", []string{"core", "task", "done"}, nil)
+		if len(idx.Match(e)) != 1 || !idx.IsTriggering(e) {
+			panic(fmt.Sprintf("WRONG: Match finds %d rules, IsTriggering says %v", len(idx.Match(e)), idx.IsTriggering(e)))
+		}
+	})
 	fmt.Println("REPLAY-DONE")
 }
 `
@@ -86,6 +139,14 @@ func c01Replay(c *Checker, o *Obl) map[string]interface{} {
 		want = []string{"event-state-list-value", "event-state-map-value"}
 	case strings.Contains(o.ID, "room-for-a-bit") || strings.Contains(o.ID, "rule-gets-a-bit") || strings.Contains(o.ID, "walks-the-bits") || strings.Contains(o.ID, "dec:loop2"):
 		want = []string{"state-rules-63", "state-rules-64", "state-rules-65", "state-rules-130"}
+	case strings.Contains(o.ID, "IsTriggering#") && strings.Contains(o.ID, "eventProcessor"), strings.Contains(o.ID, "cache-dropped"):
+		want = []string{"cache-same-name-other-kind", "cache-same-kind-other-name"}
+	case strings.Contains(o.ID, ").Match#"):
+		want = []string{"rule-with-two-matching-patterns"}
+	case strings.Contains(o.ID, "ProcessEvent#") && strings.Contains(o.ID, "loop2"):
+		want = []string{"self-suppression", "suppression-of-another-rule"}
+	case strings.Contains(o.ID, "trigAt") || strings.Contains(o.ID, "decides-reachability") || strings.Contains(o.ID, "rules-only-where"):
+		want = []string{"wildcard-next-to-exact-entry"}
 	default:
 		return nil
 	}
